@@ -92,6 +92,10 @@ func (sm *seatManager) AssignSeats(playerSeatIDs map[string]int) error {
 			return ErrDuplicateSeats
 		}
 
+		if seatID < 0 || seatID >= sm.MaxSeat {
+			return ErrUnavailableSeat
+		}
+
 		if seatPlayer, exist := sm.SeatData[seatID]; exist && seatPlayer != nil && seatPlayer.ID != playerID {
 			sm.printState(3, func(tag int) {
 				fmt.Printf("[DEBUG#seatManager#AssignSeats#%d] seatID: %d, seatPlayer.ID: %s. playerID: %s, Error: %+v\n", tag, seatID, seatPlayer.ID, playerID, ErrSeatAlreadyIsTaken)
